@@ -338,7 +338,7 @@ pub fn datum_property<T: Serialize + DeserializeOwned + PartialEq + std::fmt::De
 
 pub fn run(ctx: &mut Ctx) {
 	if ctx.wants("T_typed_instances") {
-		let n = ctx.pick(40_000, 600_000);
+		let n = ctx.pick(120_000, 600_000);
 		let fam = Fam::new("T_typed_instances", "proptest: instances of a derive-annotated family (named/tuple/newtype/unit structs; enum with unit, newtype, tuple, struct, empty-struct and recursive variants; Option, Box recursion, tuples, Vec, BTreeMap keyed by String, i64, i8, u8, u64, char, unit-variant enum, newtype(String), newtype(u32); all integer widths at their bounds; f32/f64 from random bit patterns; arbitrary Unicode): (1) from_value(to_value(x)) == x with floats by bits, (2) to_value(x) has serde_json::to_value(x)'s shape (non-finite => null on both sides), (3) deserializing serde_json's rendering (as Value and as text) gives x; non-trivial = contains an enum variant with payload, a non-string map key or a float", false);
 		let fam = run_proptest(
 			ctx,
